@@ -51,4 +51,45 @@ theorem C17_only_completed_accepted (reqs : List RerunReq) (c c' : Cond)
     rw [this] at h
     cases h
 
+/-- **C17/C02**: the flags the workflow status is computed from (`has_active_tasks`,
+    `has_canceled_tasks`, ...) count only the *current* record of each task execution key: a record
+    superseded by a rerun or a later loop iteration has no say -/
+theorem C17_only_current_records_counted (s : WState) (p : Status → Bool) (i : Nat)
+    (h : i ∈ s.idxByStatus p) :
+    (∃ k, (k, i) ∈ s.tasks) ∧ ∃ r x, s.sequence[i]? = some r ∧ r.status = some x ∧ p x = true := by
+  unfold WState.idxByStatus at h
+  obtain ⟨⟨r, j⟩, hm, hj⟩ := List.mem_map.mp h
+  simp only at hj
+  subst hj
+  obtain ⟨hz, hf⟩ := List.mem_filter.mp hm
+  simp only [Bool.and_eq_true] at hf
+  obtain ⟨hp, hl⟩ := hf
+  constructor
+  · unfold WState.isLast at hl
+    obtain ⟨q, hq, he⟩ := List.any_eq_true.mp hl
+    refine ⟨q.1, ?_⟩
+    have : q.2 = j := by simpa using he
+    rw [← this]
+    exact hq
+  · have hget : s.sequence[j]? = some r := by
+      have := List.mem_zipIdx hz
+      simp only [Nat.zero_add, Nat.sub_zero] at this
+      obtain ⟨_, h2, h3⟩ := this
+      rw [List.getElem?_eq_getElem h2]
+      exact congrArg some h3.symm
+    cases hs : r.status with
+    | none => simp [hs] at hp
+    | some x => exact ⟨r, x, hget, hs, by simpa [hs] using hp⟩
+
+theorem C17_canceled_needs_current_canceled (s : WState) (h : s.hasCanceled = true) :
+    ∃ k i r, (k, i) ∈ s.tasks ∧ s.sequence[i]? = some r ∧ r.status = some .canceled := by
+  unfold WState.hasCanceled at h
+  cases hl : s.idxByStatus (· == .canceled) with
+  | nil => simp [hl] at h
+  | cons i rest =>
+    obtain ⟨⟨k, hk⟩, r, x, hr, hs, hx⟩ := C17_only_current_records_counted s (· == .canceled) i (by rw [hl]; exact List.mem_cons_self)
+    refine ⟨k, i, r, hk, hr, ?_⟩
+    rw [hs]
+    cases x <;> first | rfl | (exact absurd hx (by decide))
+
 end Orq
